@@ -74,9 +74,17 @@ AsPathSets ==
     as4 |-> {P("only", 65001)} ]
 AsNames == {"as1", "as2", "as3", "as4"}
 
-CommSets == [ cs1 |-> {1}, cs2 |-> {1, 2} ]      \* communities 65000:n
-CsNames == {"cs1", "cs2"}
-Comms == {{}, {1}, {1, 2}, {2}, {3}}
+\* communities 65000:n.  A pattern is a number n (the literal "65000:n") or a wildcard code; every pattern is matched against
+\* the WHOLE community, so a longer community that merely contains a match does not count:
+\*   1000  "65000:1."       one arbitrary character after the 1: 65000:10 .. 65000:19
+\*   1001  "65000:12[0-9]"  65000:120 .. 65000:129
+CommPatMatches(x, cm) ==
+  CASE x = 1000 -> \E n \in cm : n \in 10..19
+    [] x = 1001 -> \E n \in cm : n \in 120..129
+    [] OTHER    -> x \in cm
+CommSets == [ cs1 |-> {1}, cs2 |-> {1, 2}, cs3 |-> {1000}, cs4 |-> {1001, 2} ]
+CsNames == {"cs1", "cs2", "cs3", "cs4"}
+Comms == {{}, {1}, {1, 2}, {2}, {3}, {10}, {123}, {1234, 2}}
 
 \* ---- set-option semantics ---------------------------------------------------
 SetOpt(opt, pats, M(_)) ==
@@ -106,7 +114,7 @@ PathSeen(r, pre) == IF pre = 0 THEN AsPaths[r.ap] ELSE << [t |-> "seq", as |-> R
 HoldsP(cd, r, cm, pre) ==
   CASE cd.k = "prefix"    -> IF cd.opt = "any" THEN PrefixSetMatch(cd.set, r.p) ELSE ~PrefixSetMatch(cd.set, r.p)
     [] cd.k = "aspath"    -> LET M(x) == PatMatch(x, PathSeen(r, pre)) IN SetOpt(cd.opt, AsPathSets[cd.set], M)
-    [] cd.k = "community" -> LET M(x) == x \in cm IN SetOpt(cd.opt, CommSets[cd.set], M)
+    [] cd.k = "community" -> LET M(x) == CommPatMatches(x, cm) IN SetOpt(cd.opt, CommSets[cd.set], M)
     [] cd.k = "aslen"     -> LET h == HopCount(PathSeen(r, pre)) IN
                              (r.ap # "none" \/ pre > 0) /\
                              CASE cd.cmp = "eq" -> h = cd.n [] cd.cmp = "ge" -> h >= cd.n [] cd.cmp = "le" -> h <= cd.n
